@@ -208,7 +208,8 @@ func Render(s *Spec, o RenderOpts) string {
 				d += l.ws() + fmt.Sprint(t.Code)
 			} else if t.Name != "" && !t.Redecl && l.chance(1, 6) {
 				// a string alias, as in `%token ID "identifier"` (documented in Parser.go); purely decorative
-				d += l.ws() + fmt.Sprintf("%q", "alias of "+t.Name)
+				aliases := []string{`"alias of ` + t.Name + `"`, `"\n"`, `"a\tb"`, `"say \"` + t.Name + `\""`, `"back\\slash"`, `"<="`}
+				d += l.ws() + aliases[l.r.Intn(len(aliases))]
 			}
 			if t.Redecl {
 				// %token <tag> X   then   %token X n
@@ -253,6 +254,22 @@ func Render(s *Spec, o RenderOpts) string {
 		for _, t := range lv.Terms {
 			if precOnly[t] && s.Terms[t].Tag != "" {
 				tag = s.Terms[t].Tag
+			}
+		}
+		if tag == "" && len(s.Fields) > 0 && l.chance(1, 4) {
+			// the typed form of a precedence line; the tag only applies to tokens first declared here and none of
+			// them is referenced through $n, so it changes nothing that is observed
+			allPrecOnlyUntagged := true
+			for _, t := range lv.Terms {
+				if !precOnly[t] {
+					continue
+				}
+				if s.Terms[t].Tag != "" {
+					allPrecOnlyUntagged = false
+				}
+			}
+			if allPrecOnlyUntagged {
+				tag = s.Fields[0].Name
 			}
 		}
 		if tag != "" {
